@@ -217,6 +217,9 @@ def gen_program(rng, conflict=False):
                 start = cplxexpr() if (rng.random() < 0.6 and kind == "arr") else realexpr(0)
                 phases[pn].append(["assign", acc, start])
                 phases[pn].append(["assign", acc, ["+", ["var", acc], ["var", big]]])
+                if kind == "arr" and rng.random() < 0.7:
+                    # ... and is subscripted (legal: its final kind is an array)
+                    phases[pn].append(["assign", lhs("e", "cplx"), ["sub", ["var", acc], ["num", 0]]])
             elif r < 0.30:
                 rhs = realexpr()
                 phases[pn].append(["assign", lhs("x", "real"), rhs])
